@@ -272,6 +272,132 @@ func CheckC12(r *Run) int {
 		}
 	}})
 	r.Absorb("H_C12_relayout", st, fmt.Sprintf("every gap of %d hand-written statement-form seeds incl. multi-line string literals (%d gaps, one gap at a time) plus %d sampled gap positions over %d seed programs with a window of %d consecutive gaps re-laid out from menus (inline: %q, line break: %q, leading/trailing variants), LF or CRLF", 5, nPri, nSampled, len(seeds), window, inlineMenu, breakMenu))
+	// Harness B: symbolic white space. One gap of a hand-written seed (or of a sampled site) receives k symbolic bytes over
+	// {blank, tab} before and/or after its present content; acceptance and emitted bytes must not depend on them.
+	wsSites := append([]site{}, sites[:nPri]...)
+	extraWS := 40
+	if !quick {
+		extraWS = 600
+	}
+	for i := nPri; i < len(sites) && i < nPri+extraWS; i++ {
+		wsSites = append(wsSites, sites[i])
+	}
+	st = r.Eng.Explore(func(c *gosym.Ctx) interface{} {
+		mountStd(c)
+		s := wsSites[c.Choose("site", 0, len(wsSites)-1)]
+		ls := seeds[s.seed]
+		g := s.gap
+		orig := ls.gaps[g]
+		// blanks may only be added where they cannot split or create a token: not inside qualified names / @prog
+		if g > 0 && g < len(ls.toks) && orig == "" {
+			l, rr := ls.toks[g-1], ls.toks[g]
+			if l == "." || rr == "." || l == "@" || (l == "-" && rr[0] >= '0' && rr[0] <= '9') {
+				return layOutcome{Kind: "same"}
+			}
+			// two-character operators were split into tokens by the splitter only if they are separate tokens; "a++", "x[1]" etc. stay legal with blanks
+			if (l == "+" && rr == "+") || (l == "-" && rr == "-") {
+				return layOutcome{Kind: "same"}
+			}
+		}
+		k := c.Choose("blanks", 1, 2)
+		var sy []gosym.Str
+		for i := 0; i < k; i++ {
+			b := c.B.ByteVar(fmt.Sprintf("w%d", i), " \t")
+			c.S.Declare(b)
+			sy = append(sy, gosym.ByteStr(b))
+		}
+		symws := gosym.Concat(sy...)
+		var gapStr gosym.Str
+		if strings.Contains(orig, "\n") && c.Fork() {
+			gapStr = gosym.Concat(gosym.Conc(orig), symws) // indentation after the line break
+		} else {
+			gapStr = gosym.Concat(symws, gosym.Conc(orig)) // blanks between tokens / trailing blanks before the line break
+		}
+		var parts []gosym.Str
+		var ob strings.Builder
+		for i, t := range ls.toks {
+			if i == g {
+				parts = append(parts, gapStr)
+			} else {
+				parts = append(parts, gosym.Conc(ls.gaps[i]))
+			}
+			parts = append(parts, gosym.Conc(t))
+			ob.WriteString(ls.gaps[i])
+			ob.WriteString(t)
+		}
+		last := len(ls.gaps) - 1
+		if g == last {
+			parts = append(parts, gapStr)
+		} else {
+			parts = append(parts, gosym.Conc(ls.gaps[last]))
+		}
+		ob.WriteString(ls.gaps[last])
+		relaid := gosym.Concat(parts...)
+		origSrc := ob.String()
+		c.FS.AddFile("/work/orig/main.tsh", gosym.Conc(origSrc))
+		c.FS.AddFile("/work/new/main.tsh", relaid)
+		for _, d := range []string{"orig", "new"} {
+			c.FS.AddFile("/work/"+d+"/u.tsh", gosym.Conc(layoutAux["u.tsh"]))
+			c.FS.AddFile("/work/"+d+"/w.tsh", gosym.Conc(layoutAux["w.tsh"]))
+		}
+		for _, target := range []string{"bash", "batch"} {
+			var s1, s2 gosym.Str
+			var e1, e2 bool
+			p1 := c.Try(func() { s1, _, e1 = c.Transpile("/work/orig/main.tsh", target) })
+			p2 := c.Try(func() { s2, _, e2 = c.Transpile("/work/new/main.tsh", target) })
+			what := ""
+			var model map[string]uint64
+			switch {
+			case (p1 != nil) != (p2 != nil):
+				what = "one layout panics"
+			case p1 != nil:
+			case e1 != e2:
+				what = fmt.Sprintf("accepted=%v for the original layout, accepted=%v with symbolic blanks", !e1, !e2)
+			case !e1:
+				eq := c.StrEq(s1, s2)
+				if !eq.IsTrue() {
+					if res, m := c.Sat(c.B.Not(eq)); res == sym.Sat {
+						what, model = "emitted script differs", m
+					} else if res == sym.Unknown {
+						c.Unsupported("solver unknown on script equality")
+					}
+				}
+			}
+			if what != "" {
+				if model == nil {
+					_, model = c.Sat()
+				}
+				l, rr := "BOF", "EOF"
+				if g > 0 {
+					l = genTok(ls.toks[g-1])
+				}
+				if g < len(ls.toks) {
+					rr = genTok(ls.toks[g])
+				}
+				return layOutcome{Kind: "bad", What: what + " (" + target + ", symbolic blanks)", Orig: origSrc, Relaid: ModelStr(relaid, model), Seed: ls.name, Ctx: l + "_" + rr}
+			}
+			if e1 {
+				return layOutcome{Kind: "both-rejected"}
+			}
+		}
+		return layOutcome{Kind: "same"}
+	}, gosym.ExploreOpts{Workers: r.Workers, TimeoutMS: 10000, Budget: gosym.Budget{MaxPaths: 3_000_000, Steps: 60_000_000}, OnPath: func(pr *gosym.PathResult) {
+		o, ok := pr.Ret.(layOutcome)
+		if !ok {
+			return
+		}
+		switch o.Kind {
+		case "same":
+			same++
+		case "both-rejected":
+			rejectedBoth++
+		case "bad":
+			if len(bads) < 800 {
+				bads = append(bads, o)
+			}
+		}
+	}})
+	r.Absorb("H_C12_symbolic_blanks", st, fmt.Sprintf("%d gap positions (every gap of the hand-written seeds, %d sampled): 1..2 symbolic bytes over {blank, tab} inserted before the gap's content or, at line breaks, after it (indentation); the lexer runs on the symbolic bytes", len(wsSites), len(wsSites)-nPri))
 	// classify and confirm
 	seen := map[string]bool{}
 	validated := 0
